@@ -46,7 +46,7 @@ var parseChain = map[string]bool{
 func init() {
 	register(&propertySpec{
 		ID: "C01", Fixtures: []string{"FMTCONST", "EXTCUT", "GLOB"}, NeedCG: true, Quick: cfgAMD, Thorough: cfgAll,
-		Explanation: "Decides the structural conditions PAR2 repair rests on, for every path of the code: the only failure of reconstruction - a singular or under-determined system - is propagated as an error through every frame from the row reduction up to par2.Repair (ERRFLOW on the reconstruct chain); Repair returns nil only after every buffer it wrote matched the archive's 16k-hash and MD5, and a mismatch returns an error (WGUARD with error returns); writer and reader agree on the coder constructor, on its dimensions being the lengths of the very slices handed to it (the parity table is indexed by exponent), on slice cutting/padding and on the checksum functions (PAIR); every recovery block accepted as a parity shard has the slice size the coder's equal-length precondition needs (SHLEN); per-file damage flags are written to the record Repair reads, not to a copy (DEADST/LOCALCOPY); intact files are recognised with the full per-file predicate (SKIPOK); expected and found slice locations accumulate, so repeated slice contents do not consume recovery blocks (ACCUM); the coder workers partition the slice correctly for every goroutine count (RACE); Repair declares success only through Decoder.Repair (ENTRY-SEQ); the file writer replaces whole files (EFF write-impl). Round-3 additions: after a data file has been read, no return skips the slice search or the two file-level checks (MUSTPASS); elementary row operations cover the whole row of the matrix they touch, also of the wider augmented matrix (ROWCOVER); every surviving recovery block is a candidate row - a nil shard is skipped, it does not end the scan (FILTER). Later additions: format strings, extension cuts and index-path prefixes are literal (FMTCONST, EXTCUT, BASECUT); the checksum map returns exactly m[crc][md5(data)] (GETKEYS); no write follows a failed reconstruction and the not-enough error needs a missing slice (NOWRITE, NEEDSLICE); the file reader returns the OS error itself, which the missing-file test needs (ERRIDENT); no value is copied into a like-typed field of another name (FIELDCROSS); deep comparisons compare like with like (DEEPEQ); a volume file's blocks are used only after its main packet's slice size and file-id sets matched the index file's (VOLCONS); volume discovery lists literally and completely (GLOB, GLOBCALL).",
+		Explanation: "Decides the structural conditions PAR2 repair rests on, for every path of the code: the only failure of reconstruction - a singular or under-determined system - is propagated as an error through every frame from the row reduction up to par2.Repair (ERRFLOW on the reconstruct chain); Repair returns nil only after every buffer it wrote matched the archive's 16k-hash and MD5, and a mismatch returns an error (WGUARD with error returns); writer and reader agree on the coder constructor, on its dimensions being the lengths of the very slices handed to it (the parity table is indexed by exponent), on slice cutting/padding and on the checksum functions (PAIR); every recovery block accepted as a parity shard has the slice size the coder's equal-length precondition needs (SHLEN); per-file damage flags are written to the record Repair reads, not to a copy (DEADST/LOCALCOPY); intact files are recognised with the full per-file predicate (SKIPOK); expected and found slice locations accumulate, so repeated slice contents do not consume recovery blocks (ACCUM); the coder workers partition the slice correctly for every goroutine count (RACE); Repair declares success only through Decoder.Repair (ENTRY-SEQ); the file writer replaces whole files (EFF write-impl). Round-3 additions: after a data file has been read, no return skips the slice search or the two file-level checks (MUSTPASS); elementary row operations cover the whole row of the matrix they touch, also of the wider augmented matrix (ROWCOVER); every surviving recovery block is a candidate row - a nil shard is skipped, it does not end the scan (FILTER). Later additions: format strings, extension cuts and index-path prefixes are literal (FMTCONST, EXTCUT, BASECUT); the checksum map returns exactly m[crc][md5(data)] (GETKEYS); no write follows a failed reconstruction and the not-enough error needs a missing slice (NOWRITE, NEEDSLICE); the file reader returns the OS error itself, which the missing-file test needs (ERRIDENT); no value is copied into a like-typed field of another name (FIELDCROSS); deep comparisons compare like with like (DEEPEQ); a volume file's blocks are used only after its main packet's slice size and file-id sets matched the index file's (VOLCONS); volume discovery lists literally and completely (GLOB, GLOBCALL); the slice search covers every offset and its rolling checksum stays coupled to the scan position (SCANALL, ROLLSCAN, WINTAB - the clauses of C16).",
 		NotDecided:  []string{"that Repair succeeds whenever k blocks survive (matrix algebra, slice search at every offset)", "volume discovery beyond what C06 decides", "the values of the reconstructed bytes"},
 		Run: func(w *World, r *Report, tier string) {
 			guard(r, "ERRFLOW", func() {
@@ -58,6 +58,9 @@ func init() {
 			guard(r, "VOLCONS", func() { ruleVOLCONS(w, r) })
 			guard(r, "GLOB", func() { ruleGLOB(w, r, globOpts{literal: true, complete: true}) })
 			guard(r, "GLOBCALL", func() { ruleGLOBCALL(w, r) })
+			guard(r, "SCANALL", func() { ruleSCANALL(w, r) })
+			guard(r, "ROLLSCAN", func() { ruleROLLSCAN(w, r) })
+			guard(r, "WINTAB", func() { ruleWINTAB(w, r) })
 			guard(r, "SKIPOK", func() { ruleSKIPOK(w, r) })
 			guard(r, "DEADST", func() { ruleDEADST(w, r) })
 			guard(r, "ACCUM", func() { ruleACCUM(w, r) })
@@ -98,7 +101,7 @@ func init() {
 
 	register(&propertySpec{
 		ID: "C03", NeedCG: true, Quick: cfgAMD, Thorough: cfgAll,
-		Explanation: "Decides what the PAR2 verdict is computed from: the verdict predicates are evaluated exhaustively over their finite comparison domain against the table the property states, and the counters are incremented exactly on the nil / non-nil edge of the element they range over, the wrong-file counter exactly under !ok (DECIDE); a slice is recorded as found only for a non-empty CRC32+MD5 lookup of that very slice, packets are accepted only with their MD5 verified over (set id, type, body), packets of other sets are skipped and volume files are read with the decoder's set id (GATE); every per-file and per-slice flag computed while loading can reach the verdict, and is written to the record, not to a local copy of it (DEADST/LOCALCOPY); the expected-location map and the per-slice location sets accumulate - every place a slice content is expected, and every place it is found, is recorded (ACCUM); Verify's result is built from the decoder's counts after both load phases (ENTRY-SEQ). The packet MD5 is computed over set id, type and the whole body (CONST hash orders); no return of the per-file loader skips the whole-file hash or length check (MUSTPASS); the directory is asked for exactly '<base>.' + ext with base cut by length (GLOBCALL). Later additions: the slice search is left only once the position has reached len(data) (SCANALL); a volume file is accepted only after its main packet matched the index file's slice size and file-id sets (VOLCONS); the checksum map returns exactly m[crc][md5(data)] (GETKEYS); the volume lister matches literally and completely (GLOB); extension and prefix cuts are by length (EXTCUT, BASECUT); the file reader returns the OS error itself (ERRIDENT); stored names are the decoded wire names (NAMEFID); hash fields are not crossed (FIELDCROSS); parse errors propagate (ERRFLOW on the parsing functions).",
+		Explanation: "Decides what the PAR2 verdict is computed from: the verdict predicates are evaluated exhaustively over their finite comparison domain against the table the property states, and the counters are incremented exactly on the nil / non-nil edge of the element they range over, the wrong-file counter exactly under !ok (DECIDE); a slice is recorded as found only for a non-empty CRC32+MD5 lookup of that very slice, packets are accepted only with their MD5 verified over (set id, type, body), packets of other sets are skipped and volume files are read with the decoder's set id (GATE); every per-file and per-slice flag computed while loading can reach the verdict, and is written to the record, not to a local copy of it (DEADST/LOCALCOPY); the expected-location map and the per-slice location sets accumulate - every place a slice content is expected, and every place it is found, is recorded (ACCUM); Verify's result is built from the decoder's counts after both load phases (ENTRY-SEQ). The packet MD5 is computed over set id, type and the whole body (CONST hash orders); no return of the per-file loader skips the whole-file hash or length check (MUSTPASS); the directory is asked for exactly '<base>.' + ext with base cut by length (GLOBCALL). Later additions: the slice search is left only once the position has reached len(data), advances by one byte after a miss and one slice after a hit, and rolls its checksum only by one byte from the previous window (SCANALL, ROLLSCAN, WINTAB); a volume file is accepted only after its main packet matched the index file's slice size and file-id sets (VOLCONS); the checksum map returns exactly m[crc][md5(data)] (GETKEYS); the volume lister matches literally and completely (GLOB); extension and prefix cuts are by length (EXTCUT, BASECUT); the file reader returns the OS error itself (ERRIDENT); stored names are the decoded wire names (NAMEFID); hash fields are not crossed (FIELDCROSS); parse errors propagate (ERRFLOW on the parsing functions).",
 		NotDecided:  []string{"completeness of the slice search (rolling CRC, every offset) - C16", "the count of distinct recovery blocks beyond acceptance"},
 		Run: func(w *World, r *Report, tier string) {
 			guard(r, "DECIDE", func() {
@@ -121,6 +124,8 @@ func init() {
 			guard(r, "DEADST", func() { ruleDEADST(w, r) })
 			guard(r, "ACCUM", func() { ruleACCUM(w, r) })
 			guard(r, "SCANALL", func() { ruleSCANALL(w, r) })
+			guard(r, "ROLLSCAN", func() { ruleROLLSCAN(w, r) })
+			guard(r, "WINTAB", func() { ruleWINTAB(w, r) })
 			guard(r, "VOLCONS", func() { ruleVOLCONS(w, r) })
 			guard(r, "ENTRY-SEQ", func() { ruleENTRYSEQ(w, r, "par2") })
 		},
@@ -424,6 +429,22 @@ func init() {
 			guard(r, "ANCHOR", func() { ruleANCHOR(w, r, "", 6) })
 			guard(r, "DETERM", func() { r.rule("DETERM", ruleDETERMText); determPathsPar2(w, r, false) })
 			guard(r, "EFF", func() { ruleEFF(w, r, effOpts{e1: true, e2: true, implDir: true}) })
+		},
+	})
+
+	register(&propertySpec{
+		ID: "C16", NeedCG: true, Quick: cfgAMD, Thorough: cfgAll,
+		Explanation: "Decides the structural conditions that finding slices at every offset rests on - not the checksum algebra. In par2.fillShardInfos the search looks at data[j : j+sliceByteCount] (padded) for the scan position j, advances by one byte exactly where the lookup was empty and by one slice exactly where it was not, starts at 0 and is left only when j has reached len(data) (ROLLSCAN R1/R2, SCANALL); a rolled checksum is used only in an iteration that follows a one-byte advance, is rolled from the previous window's checksum with data[j-1] leaving and the padded slice's last byte entering, by a window made for sliceByteCount, and every other iteration computes the full CRC of the same slice; the checksum looked up belongs to the slice looked up (ROLLSCAN R3/R4); the window's 256-entry table is written at every index (WINTAB); the lookup returns exactly the set filed under (crc, md5(slice)) (GETKEYS); expected and found locations accumulate, so a slice content found once is credited to every place it is expected (ACCUM); a slice's data is recorded only under a non-empty lookup of that very slice (GATE G7); writer and reader cut and pad slices with the same helper (PAIR slicing); every slice record of a file has an element for every checksum pair (SHARDTAB).",
+		NotDecided:  []string{"the rolling CRC32 algebra: that update() returns the CRC of the shifted window (table values, the mask constant)", "that a slice overlapping an edit is the only thing lost (counting argument over offsets)", "the behaviour for slice sizes below 4 (newCRC32Window panics)"},
+		Run: func(w *World, r *Report, tier string) {
+			guard(r, "ROLLSCAN", func() { ruleROLLSCAN(w, r) })
+			guard(r, "SCANALL", func() { ruleSCANALL(w, r) })
+			guard(r, "WINTAB", func() { ruleWINTAB(w, r) })
+			guard(r, "GETKEYS", func() { ruleGETKEYS(w, r) })
+			guard(r, "ACCUM", func() { ruleACCUM(w, r) })
+			guard(r, "GATE", func() { r.rule("GATE", ruleGATEText); gateSlices(w, r) })
+			guard(r, "PAIR", func() { rulePAIRpar2(w, r, pairOpts{slicing: true}) })
+			guard(r, "SHARDTAB", func() { ruleSHARDTAB(w, r) })
 		},
 	})
 
